@@ -186,3 +186,13 @@ def _is_copy_of(f, local, src):
                 if rv["k"] == "ref" and rv["place"]["p"] == ["*"]:
                     return _is_copy_of(f, rv["place"]["l"], src) or rv["place"]["l"] == src
     return False
+
+# ---- R09.8 (shared with C08 R08.1b / R08.8): key texts are canonical because the key decoders are — byte-preserving for v2–v4
+# (encode(decode(b)) = b), the library's strict DER/PEM parser on the unmodified bytes for v1. (Whether the bytes are a VALID
+# key is C08's R08.2, not a canonicality question.)
+_run_c09 = run
+def run(ctx):
+    _run_c09(ctx)
+    import shared
+    shared.share(ctx, "c08", lambda r, k: r in ("R08.1b", "R08.8"), "R09.8", "C09/key-decoder/")
+FLOORS["R09.8"] = 28
